@@ -71,6 +71,8 @@ SCHEMAS = [
     O({"e": A(S(maxLength=0), maxItems=1), "z": A(I(), maxItems=0)}, required=[]),
     O({}, additionalProperties=I(), maxProperties=0),
     O({}, additionalProperties=S(maxLength=1), minProperties=1, maxProperties=1),
+    # a JSON number member next to string-formatted float members, all optional (their generic Opt wrappers must stay distinct)
+    O({"ratio": dict(type="number", format="float"), "price": S(format="float32"), "wide": dict(type="number", format="double"), "cost": S(format="float64")}, required=[]),
 ]
 
 EXTRA_COMPONENTS = []
